@@ -1,20 +1,24 @@
 """MANIFEST.setup_cmd: parse every specification module (offline, nothing to build)."""
 import glob
 import os
+import shutil
 import subprocess
+import tempfile
 
 from .common import SPEC
 
 
 def main():
     bad = 0
+    tmp = tempfile.mkdtemp(prefix="jasmverif-setup-")
     mods = sorted(glob.glob(os.path.join(SPEC, "*.tla")))
     for m in mods:
-        p = subprocess.run(["java", "-cp", "/opt/veriftools/tla/tla2tools.jar:/opt/veriftools/tla/CommunityModules-deps.jar",
+        p = subprocess.run(["java", f"-Djava.io.tmpdir={tmp}", "-cp", "/opt/veriftools/tla/tla2tools.jar:/opt/veriftools/tla/CommunityModules-deps.jar",
                             "tla2sany.SANY", os.path.basename(m)], cwd=SPEC, capture_output=True, text=True)
         out = p.stdout + p.stderr
         if p.returncode != 0 or "*** Errors" in out or "Fatal" in out or "Could not" in out:
             print(f"SANY failed on {m}:\n{out[-1500:]}")
             bad += 1
+    shutil.rmtree(tmp, ignore_errors=True)
     print(f"setup: {len(mods)} modules parsed, {bad} failed")
     return 2 if bad else 0
